@@ -33,6 +33,12 @@ enum Op {
     /// spawn_session hands to the executor), stub input or an `ls` tool envelope; `link` = thread ordinal
     /// of a linked run (POST /threads/{id}/messages): the run closes with append_run_ended on that thread
     SessRun { tool: bool, link: Option<usize> },
+    /// ONE call that makes several locked appends: a compaction job run to completion by the caller
+    /// (compaction_auto_v1: job_spawned, checkpoint_created .., job_ended; schedule = true:
+    /// compaction_auto_schedule_v1 with execute: the schedule decision frame first).  The private append
+    /// functions behind it are reachable no other way.  At most one such actor per case: its frames are
+    /// recognised by their kinds.
+    CompactionAuto { th: usize, schedule: bool },
 }
 
 #[derive(Clone, Debug, PartialEq)]
@@ -80,7 +86,7 @@ fn locked_append() -> Vec<M> {
 fn lineage() -> Vec<M> {
     vec![M::Lock, M::Alloc, M::Log, M::Sidecar, M::Bcast, M::Index, M::SetNext, M::Log, M::Sidecar, M::Bcast, M::SetNext, M::Unlock]
 }
-fn prog(op: &Op) -> Vec<M> {
+fn prog(op: &Op, job_kinds: &[u64]) -> Vec<M> {
     match op {
         Op::Append { .. } => [vec![M::Target], locked_append()].concat(),
         Op::PostNewest => [vec![M::Pick], locked_append()].concat(),
@@ -95,6 +101,8 @@ fn prog(op: &Op) -> Vec<M> {
             }
             v
         }
+        // what the call appended is known after the run
+        Op::CompactionAuto { .. } => job_kinds.iter().flat_map(|_| [vec![M::Target], locked_append()].concat()).collect(),
     }
 }
 
@@ -106,11 +114,12 @@ fn op_coq(op: &Op) -> String {
         Op::Handoff { th } => format!("OHandoff {}", coq_nat(*th as u64)),
         Op::Read { th } => format!("ORead {}", coq_nat(*th as u64)),
         Op::TaskEmit { .. } => "OTaskEmit EToolTaskOutputDelta".into(),
-        Op::SessRun { .. } => "ORead 0%nat".into(), // never printed: mixed cases go through mop_coq
+        Op::SessRun { .. } | Op::CompactionAuto { .. } => "ORead 0%nat".into(), // never printed: mixed cases go through mop_coq
     }
 }
-fn mop_coq(op: &Op) -> String {
+fn mop_coq(op: &Op, job_kinds: &[u64]) -> String {
     match op {
+        Op::CompactionAuto { th, .. } => format!("MAppends {} [{}]", coq_nat(*th as u64), job_kinds.iter().map(|c| coq_etype(*c)).collect::<Vec<_>>().join("; ")),
         Op::SessRun { tool, link } => format!(
             "MRun [{}] {}",
             run_codes(*tool).iter().map(|c| coq_etype(*c)).collect::<Vec<_>>().join("; "),
@@ -216,6 +225,15 @@ fn do_op(store: &ContinuityStore, log_path: &std::path::Path, ids: &[String], op
             let _ = store.replay_events(&id_at(ids, *th));
         }
         Op::TaskEmit { .. } => {}
+        Op::CompactionAuto { th, schedule } => {
+            let id = id_at(ids, *th);
+            let (a, o) = ("user".to_string(), "harness".to_string());
+            if *schedule {
+                let _ = store.compaction_auto_schedule_v1(&id, CompactionAutoScheduleV1Request { stride_messages: Some(1), max_new_checkpoints: Some(2), block_on_inflight: Some(false), execute: Some(true), dry_run: Some(false), actor_id: a, origin: o });
+            } else {
+                let _ = store.compaction_auto_v1(&id, CompactionAutoV1Request { stride_messages: Some(1), max_new_checkpoints: Some(2), dry_run: Some(false), actor_id: a, origin: o });
+            }
+        }
         Op::SessRun { tool, link } => {
             if let Some(engine) = engine {
                 let rt = tokio::runtime::Builder::new_current_thread().enable_all().build().unwrap();
@@ -235,11 +253,11 @@ struct Pc {
     op: usize, // index of the call the real thread is in
 }
 impl Pc {
-    fn new(ops: &[Op]) -> Pc {
+    fn new(ops: &[Op], job_kinds: &[u64]) -> Pc {
         let mut steps = vec![];
         let mut op_end = vec![];
         for o in ops {
-            steps.extend(prog(o));
+            steps.extend(prog(o, job_kinds));
             op_end.push(steps.len());
         }
         Pc { steps, op_end, pc: 0, op: 0 }
@@ -317,6 +335,7 @@ struct Leaf {
     choices: Vec<usize>,
     widths: Vec<usize>,
     grants: usize,
+    job_kinds: Vec<u64>,
 }
 
 fn coarse(p: &str) -> bool {
@@ -393,6 +412,12 @@ fn run_leaf(setup: &[Setup], actors: &[Vec<Op>], choose: &mut dyn FnMut(usize, u
     let mut sticky: Option<usize> = None;
     let mut choices = vec![];
     let mut widths = vec![];
+    let store_p = env.store.clone();
+    let holding3 = holding.clone();
+    // decision points: the cont.* / start / sess.before_emit points, and - only when a continuity append
+    // arrives at the log writer WITHOUT the seq mutex it took (a critical section that ends before the log
+    // append: never the case on the code as built) - the point right before EventLog::append
+    let is_coarse = move |a: usize, p: &str| -> bool { coarse(p) || (p == "log.before_lock" && holding3.lock().unwrap().get(a).cloned().unwrap_or(false) && store_p.verif_seq_free()) };
     let trace = sched.run(
         |en| {
             {
@@ -405,12 +430,12 @@ fn run_leaf(setup: &[Setup], actors: &[Vec<Op>], choose: &mut dyn FnMut(usize, u
             }
             if let Some(s) = sticky {
                 if let Some((a, p)) = en.iter().find(|(a, _)| *a == s) {
-                    if !coarse(p) {
+                    if !is_coarse(*a, p) {
                         return Some(*a);
                     }
                 }
             }
-            if let Some((a, _)) = en.iter().find(|(_, p)| !coarse(p)) {
+            if let Some((a, _)) = en.iter().find(|(a, p)| !is_coarse(*a, p)) {
                 sticky = Some(*a);
                 return Some(*a);
             }
@@ -436,7 +461,13 @@ fn run_leaf(setup: &[Setup], actors: &[Vec<Op>], choose: &mut dyn FnMut(usize, u
     Sched::uninstall();
 
     // ---- trace -> model schedule
-    let mut pcs: Vec<Pc> = actors.iter().map(|ops| Pc::new(ops)).collect();
+    // the frames the (single) compaction actor appended: continuity frames of the job kinds, in file order
+    let job_kinds: Vec<u64> = {
+        let all = env.log_bytes();
+        let added = if all.len() >= before.len() { parse_log(&all[before.len()..]).unwrap_or_default() } else { vec![] };
+        added.iter().filter(|h| matches!(h.code, 9 | 10 | 11 | 12)).map(|h| h.code).collect()
+    };
+    let mut pcs: Vec<Pc> = actors.iter().map(|ops| Pc::new(ops, &job_kinds)).collect();
     let mut model_sched = vec![];
     for (i, (a, p)) in trace.steps.iter().enumerate() {
         let arrival = trace.steps[i + 1..].iter().find(|(b, _)| b == a).map(|(_, p)| *p).unwrap_or("done");
@@ -478,7 +509,7 @@ fn run_leaf(setup: &[Setup], actors: &[Vec<Op>], choose: &mut dyn FnMut(usize, u
     let hs = parsed.unwrap_or_default();
     let mut obs = vec![if first_order_violation(&hs).is_none() { 1 } else { 0 }];
     obs.extend(canon_log(&hs));
-    Leaf { model_sched, obs, violation, inconclusive, choices, widths, grants: trace.steps.len() }
+    Leaf { model_sched, obs, violation, inconclusive, choices, widths, grants: trace.steps.len(), job_kinds }
 }
 
 fn coarse_task(p: &str) -> bool {
@@ -557,7 +588,7 @@ fn run_task_leaf(actors: &[Vec<Op>], choose: &mut dyn FnMut(usize, usize) -> usi
         let _ = h.join();
     }
     Sched::uninstall();
-    let mut pcs: Vec<Pc> = actors.iter().map(|ops| Pc::new(ops)).collect();
+    let mut pcs: Vec<Pc> = actors.iter().map(|ops| Pc::new(ops, &[])).collect();
     let mut model_sched = vec![];
     for (i, (a, _)) in trace.steps.iter().enumerate() {
         let arrival = trace.steps[i + 1..].iter().find(|(b, _)| b == a).map(|(_, p)| *p).unwrap_or("done");
@@ -597,7 +628,7 @@ fn run_task_leaf(actors: &[Vec<Op>], choose: &mut dyn FnMut(usize, usize) -> usi
     let mut obs = vec![if first_order_violation(&hs).is_none() { 1 } else { 0 }];
     obs.extend(canon_log(&hs));
     drop(rt);
-    Leaf { model_sched, obs, violation, inconclusive, choices, widths, grants: trace.steps.len() }
+    Leaf { model_sched, obs, violation, inconclusive, choices, widths, grants: trace.steps.len(), job_kinds: vec![] }
 }
 
 /// free-running search: a real pipes task printing to stdout and stderr at once on a multi-thread
@@ -1256,6 +1287,11 @@ fn classify(setup: &[Setup], hs: &[Hdr], before_len: usize, after: &[u8]) -> Str
     for h in hs {
         let e = exp.entry(h.sid.clone()).or_insert(0);
         if h.seq != *e {
+            match h.kind {
+                rip_kernel::StreamKind::Session => return "session_stream_file_order".into(),
+                rip_kernel::StreamKind::Task => return "task_stream_file_order".into(),
+                _ => {}
+            }
             broken = Some(h.sid.clone());
             break;
         }
@@ -1288,7 +1324,7 @@ struct Case {
 }
 impl Case {
     fn is_mix(&self) -> bool {
-        self.actors.iter().flatten().any(|o| matches!(o, Op::SessRun { .. }))
+        self.actors.iter().flatten().any(|o| matches!(o, Op::SessRun { .. } | Op::CompactionAuto { .. }))
     }
     fn coq(&self, leaf: &Leaf) -> String {
         if self.is_mix() {
@@ -1296,7 +1332,7 @@ impl Case {
                 "{{| mx_setup := [KCap CapEnsureDefault 0%nat fact_ok{}{}]; mx_actors := [{}]; mx_sched := {}; mx_expect := {} |}}",
                 if self.setup.is_empty() { "" } else { "; " },
                 self.setup.iter().map(setup_coq).collect::<Vec<_>>().join("; "),
-                self.actors.iter().map(|ops| format!("[{}]", ops.iter().map(mop_coq).collect::<Vec<_>>().join("; "))).collect::<Vec<_>>().join("; "),
+                self.actors.iter().map(|ops| format!("[{}]", ops.iter().map(|o| mop_coq(o, &leaf.job_kinds)).collect::<Vec<_>>().join("; "))).collect::<Vec<_>>().join("; "),
                 coq_list_n(&leaf.model_sched),
                 coq_list_n(&leaf.obs)
             );
@@ -1589,11 +1625,18 @@ fn main() {
     // ---- runs next to store writers under the scheduler (compared with the model: check_case_mix)
     let run = |tool: bool, link: Option<usize>| Op::SessRun { tool, link };
     let mixes: Vec<(Vec<Setup>, Vec<Vec<Op>>, usize)> = vec![
-        (vec![], vec![vec![run(false, None)], vec![run(false, None)]], 40),
-        (vec![Setup::Msg { th: 0 }], vec![vec![run(false, Some(0))], vec![Op::Append { t: 4, th: 0 }]], 60),
-        (vec![Setup::Msg { th: 0 }], vec![vec![run(false, Some(0))], vec![run(true, Some(0))]], 60),
-        (vec![Setup::Msg { th: 0 }, Setup::Branch { th: 0 }], vec![vec![run(true, None)], vec![run(false, Some(1))], vec![Op::Branch { th: 0 }, Op::Append { t: 13, th: 1 }]], 60),
+        (vec![], vec![vec![run(false, None)], vec![run(false, None)]], 30),
+        (vec![Setup::Msg { th: 0 }], vec![vec![run(false, Some(0))], vec![Op::Append { t: 4, th: 0 }]], 40),
+        (vec![Setup::Msg { th: 0 }], vec![vec![run(false, Some(0))], vec![run(true, Some(0))]], 40),
+        (vec![Setup::Msg { th: 0 }, Setup::Branch { th: 0 }], vec![vec![run(true, None)], vec![run(false, Some(1))], vec![Op::Branch { th: 0 }, Op::Append { t: 13, th: 1 }]], 40),
     ];
+    // a compaction job run to completion (job_spawned, checkpoint_created x k, job_ended through the private
+    // append functions) against a message append / a linked run / a branch on the same thread
+    let msgs = |n: usize| -> Vec<Setup> { (0..n).map(|_| Setup::Msg { th: 0 }).collect() };
+    let mut mixes = mixes;
+    mixes.push((msgs(3), vec![vec![Op::CompactionAuto { th: 0, schedule: false }], vec![Op::Append { t: 4, th: 0 }]], 50));
+    mixes.push((msgs(3), vec![vec![Op::CompactionAuto { th: 0, schedule: true }], vec![Op::Append { t: 13, th: 0 }, Op::Append { t: 4, th: 0 }]], 50));
+    mixes.push((msgs(2), vec![vec![Op::CompactionAuto { th: 0, schedule: false }], vec![run(false, Some(0))], vec![Op::Branch { th: 0 }]], 40));
     for (setup, actors, cap) in mixes {
         let case = Case { setup, actors };
         exhaustive(&mut ctx, &case, if thorough { 3000 } else { cap }, "exhaustive_runs_and_store_writers");
@@ -1602,6 +1645,10 @@ fn main() {
         let (setup, threads) = gen_setup(&mut r, false);
         let na = r.range(2, 4) as usize;
         let mut actors: Vec<Vec<Op>> = (0..na).map(|_| (0..r.range(1, 2)).map(|_| gen_op(&mut r, threads)).collect()).collect();
+        if r.chance(1, 3) {
+            let th = r.below(threads as u64) as usize;
+            actors.push(vec![Op::CompactionAuto { th, schedule: r.chance(1, 2) }]);
+        }
         // at least one actor is a run (one run per actor: a session stream has one run-local counter)
         let k = r.range(1, na as u64 - 1) as usize;
         for a in actors.iter_mut().take(k) {
